@@ -9,7 +9,7 @@ from ..astq import Inliner, U, call_name, kwarg, local_defs, statements
 from ..cfg import CFG
 from ..index import AnalysisError, walk_no_nested
 from ..interp import Obj
-from ..normalform import NFUnsupported, Normalizer, equal, sym
+from ..normalform import F, NFUnsupported, Normalizer, equal, sym
 from ..selftest import V
 from ._samplers import SAMPLERS_MODS, sample_functions
 
@@ -79,12 +79,18 @@ def r1_exponent(ctx):
         dec_args = {U(c.args[0]) for _, c, _, _ in sf.decisions if c.args}
         alphas = [a for a in alphas if a.targets[0].id in dec_args]
         direct = [c.args[0] for _, c, _, _ in sf.decisions if c.args and isinstance(c.args[0], ast.Call) and U(c.args[0].func) == "torch.exp" and c.args[0].args]
+        helper_alpha = None
         if len(alphas) == 1:
             E, anchor = alphas[0].value.args[0], alphas[0]
         elif len(direct) == 1 and not alphas:
             E, anchor = direct[0].args[0], direct[0]
         else:
-            raise AnalysisError("C03.R1", f"{f.qual}: cannot find `torch.exp(E)` feeding the decision")
+            # the probability may be computed by a helper method of the sampler: `alpha = self._ratio(dA, dR, temperature_inv=...)`
+            cand = [st for st in statements(f.node) if isinstance(st, ast.Assign) and len(st.targets) == 1 and isinstance(st.targets[0], ast.Name) and st.targets[0].id in dec_args
+                    and isinstance(st.value, ast.Call) and isinstance(st.value.func, ast.Attribute) and U(st.value.func.value) in ("self", "cls")]
+            if len(cand) != 1:
+                raise AnalysisError("C03.R1", f"{f.qual}: cannot find `torch.exp(E)` feeding the decision")
+            helper_alpha, anchor, E = cand[0].value, cand[0], None
         alphas = [anchor]
         temp = [p.arg for p in f.node.args.kwonlyargs + f.node.args.args if "temperature" in p.arg]
         if len(temp) != 1:
@@ -104,7 +110,27 @@ def r1_exponent(ctx):
             for st in sorted(statements(f.node), key=lambda x: (x.lineno, x.col_offset)):
                 if isinstance(st, ast.AugAssign) and isinstance(st.target, ast.Name) and st.target.id in roles and st.lineno < anchor.lineno:
                     env[st.target.id] = Normalizer(env)(ast.BinOp(left=ast.Name(id=st.target.id, ctx=ast.Load()), op=st.op, right=st.value))
-            got = Normalizer(env)(E)
+            if helper_alpha is not None:
+                from ..normalform import method_inline_hook
+                hm = ctx.ix.method(f.cls, helper_alpha.func.attr)
+                if hm is None:
+                    raise NFUnsupported(f"helper {U(helper_alpha.func)} not found")
+                # shape of the computation: one exponential of the whole exponent. A product / quotient of exponentials has the same
+                # real value but its factors overflow and underflow separately in single precision (inf * 0 = NaN: never accepted)
+                rets_h = [s_ for s_ in statements(hm.node) if isinstance(s_, ast.Return) and s_.value is not None]
+                from ..astq import Inliner as _Inl
+                shape = _Inl(hm.node).resolve(rets_h[0].value) if len(rets_h) == 1 else None
+                n_exp = sum(1 for x_ in ast.walk(shape) if isinstance(x_, ast.Call) and U(x_.func) in ("torch.exp", "math.exp", "np.exp")) if shape is not None else 0
+                top_exp = isinstance(shape, ast.Call) and U(shape.func) == "torch.exp"
+                if not (top_exp and n_exp == 1):
+                    ctx.violation("C03.R1", hm, rets_h[0] if rets_h else hm.node, f"the acceptance probability is `{U(shape)[:90] if shape is not None else '?'}`, not a single exponential of -D: "
+                                  "its factors overflow / underflow separately (exp(148) * exp(-150) = inf * 0 = NaN in single precision), so a proposal with a finite, even favourable, D is rejected "
+                                  "(or one with D > 0 always accepted)", construct="single exponential of the exponent")
+                    continue
+                got_alpha = Normalizer(env, call_hook=method_inline_hook(ctx.ix, f.cls))(helper_alpha)
+                got = sp.log(got_alpha) if not (got_alpha.func == F["exp"]) else got_alpha.args[0]
+            else:
+                got = Normalizer(env)(E)
         except NFUnsupported as e:
             ctx.unknown("C03.R1", f, alphas[0], f"exponent not in the supported expression subset: {e}")
             continue
